@@ -226,7 +226,7 @@ def numba_kernel_loops(eng_module, fname, family, cross):
     outer = loops[0]
     j = outer.target.id
     # per-segment output arrays: the arguments of the final reducer call
-    ret = [n for n in ast.walk(fnode) if isinstance(n, ast.Return)][-1]
+    ret = sorted([n for n in ast.walk(fnode) if isinstance(n, ast.Return)], key=lambda n: n.lineno)[-1]
     arrs = [a.id for a in ret.value.args]
     specs = {}
     if cross:
@@ -246,6 +246,24 @@ def numba_kernel_loops(eng_module, fname, family, cross):
             label="goertzel_" + ("x" if idx == 0 else "y"),
         )
     return specs
+
+
+def reducer_lemmas(mod, fname, cross):
+    """cut lemmas for kernels that end in  return _reduce_stats_nb(a, b, c, d)"""
+    fnode = mod.functions[fname]
+    ret = sorted([n for n in ast.walk(fnode) if isinstance(n, ast.Return)], key=lambda n: n.lineno)[-1]
+    arrs = [a.id for a in ret.value.args]
+    if cross:
+        zr, zi = arrs[2], arrs[3]
+        return {
+            "lemma.scatter_pointwise": f"forall(0, K, lambda k: ({zr}[k] - result[2])**2 + ({zi}[k] - result[3])**2 == abs2(Z(k) - complex(result[2], result[3])))",
+            "lemma.scatter_sum": f"Sum(0, K, lambda k: ({zr}[k] - result[2])**2 + ({zi}[k] - result[3])**2) == Sum(0, K, lambda k: abs2(Z(k) - complex(result[2], result[3])))",
+        }
+    zr, zi = arrs[2], arrs[3]
+    return {
+        "lemma.scatter_pointwise": f"forall(0, K, lambda k: ({zr}[k] - result[2])**2 + ({zi}[k] - result[3])**2 == (abs2(X(k)) - result[2])**2)",
+        "lemma.scatter_sum": f"Sum(0, K, lambda k: ({zr}[k] - result[2])**2 + ({zi}[k] - result[3])**2) == Sum(0, K, lambda k: (abs2(X(k)) - result[2])**2)",
+    }
 
 
 class LazyLoops(dict):
@@ -275,7 +293,7 @@ def make_numba_kernel(fname, family, cross):
         requires=req,
         returns=("tuple", "real", "real", "real", "real", "real"),
         ensures=dict(POST_CROSS if cross else POST_AUTO),
-        opts={"ghost_defs": kernel_ghost_defs(family, cross, xs), "lazy_loops": lambda mod, fname=fname, family=family, cross=cross: numba_kernel_loops(mod, fname, family, cross), "sat_level": 0 if cross else 1},
+        opts={"ghost_defs": kernel_ghost_defs(family, cross, xs), "lazy_loops": lambda mod, fname=fname, family=family, cross=cross: numba_kernel_loops(mod, fname, family, cross), "lazy_lemmas": lambda mod, fname=fname, cross=cross: reducer_lemmas(mod, fname, cross), "sat_level": 0 if cross else 1},
     )
     return u
 
@@ -349,3 +367,125 @@ for _u in UNITS:
         _fam = "poly" if "_poly_" in _u.id else ("detrend0" if "_detrend0_" in _u.id else "win_only")
         _cross = "_csd" in _u.id
         _u.runtime = dict(sample=kernel_sample(_fam, _cross), call=kernel_call("speckit.core", _u.func), scale=kernel_scale, n_quick=12, n_thorough=120, n_search=60, skip_requires=("forall(0, K, lambda j: 0 <= starts[j] and starts[j] + L <= N)",))
+
+
+# ------------------------------------------------------------------------- NumPy fallbacks
+
+
+def _gather_post(eng, st, fid, res, entry):
+    """the gathered block must be a fresh buffer (C13/C14: later in-place detrending must
+    never reach the caller's record)"""
+    from pyvc.heap import ArrV
+
+    r = eng.deref(st, res)
+    x = eng.deref(st, eng.lookup(st, fid, "x"))
+    fresh = isinstance(r, ArrV) and isinstance(x, ArrV) and not (r.bufs & x.bufs)
+    eng.oblige(st, "frame", "result_is_a_copy_not_a_view_of_x", bool(fresh))
+
+
+def _gather_call_post(eng, st, fid, res):
+    pass
+
+
+UNITS.append(
+    Unit(
+        id="core._gather_segments",
+        module=M,
+        func="_gather_segments",
+        props=["C01", "C13", "C14"],
+        ghosts={"N": ("int", "len(x)"), "K": ("int", "len(starts)")},
+        params={"x": ("arr", "real", ("N",)), "starts": ("arr", "int", ("K",)), "L": "int"},
+        requires=["L >= 1", "forall(0, K, lambda j: 0 <= starts[j] and starts[j] + L <= N)"],
+        returns=("arr", "real", ("K", "L")),
+        ensures={"gathered": "forall(0, K, lambda k: forall(0, L, lambda n: result[k, n] == x[starts[k] + n]))", "shape": "result.shape[0] == K and result.shape[1] == L"},
+        post_hook=_gather_post,
+    )
+)
+
+
+def np_kernel_loops(mod, fname, family, cross):
+    fnode = mod.functions[fname]
+    loops = loops_in_order(fnode)
+    chunk = loops[0]
+    j0 = chunk.target.id
+    tg = []
+    for st_ in chunk.body:
+        if isinstance(st_, ast.Assign) and isinstance(st_.targets[0], ast.Subscript) and isinstance(st_.targets[0].value, ast.Name) and isinstance(st_.targets[0].slice, ast.Slice):
+            tg.append(st_.targets[0].value.id)
+    if cross:
+        if len(tg) != 4:
+            raise RuntimeError(f"{fname}: expected 4 per-segment arrays, found {tg}")
+        # NB the invariant states what the code's own kernel e = exp(+/- i w n) delivers is
+        # irrelevant here: it is the property's X, Y, Z that the arrays must hold
+        inv = f"forall(0, min({j0}, K), lambda k: {tg[0]}[k] == abs2(X(k)) and {tg[1]}[k] == abs2(Y(k)) and {tg[2]}[k] == re(Z(k)) and {tg[3]}[k] == im(Z(k)))"
+    else:
+        if len(tg) != 1:
+            raise RuntimeError(f"{fname}: expected 1 per-segment array, found {tg}")
+        inv = f"forall(0, min({j0}, K), lambda k: {tg[0]}[k] == abs2(X(k)))"
+    return {"0": dict(inv=[inv], label="chunks")}
+
+
+def np_kernel_lemmas(mod, fname, cross):
+    """cut lemmas for the inline scatter reduction of the NumPy kernels"""
+    fnode = mod.functions[fname]
+    loops = loops_in_order(fnode)
+    chunk = loops[0]
+    tg = [st_.targets[0].value.id for st_ in chunk.body if isinstance(st_, ast.Assign) and isinstance(st_.targets[0], ast.Subscript) and isinstance(st_.targets[0].value, ast.Name) and isinstance(st_.targets[0].slice, ast.Slice)]
+    ret = sorted([n for n in ast.walk(fnode) if isinstance(n, ast.Return)], key=lambda n: n.lineno)[-1]
+    names = [e.id if isinstance(e, ast.Name) else None for e in ret.value.elts]
+    if cross:
+        zr, zi, mr, mi = tg[2], tg[3], names[2], names[3]
+        return {
+            "lemma.scatter_pointwise": f"forall(0, K, lambda k: ({zr}[k] - {mr})**2 + ({zi}[k] - {mi})**2 == abs2(Z(k) - complex({mr}, {mi})))",
+            "lemma.scatter_sum": f"Sum(0, K, lambda k: ({zr}[k] - {mr})**2 + ({zi}[k] - {mi})**2) == Sum(0, K, lambda k: abs2(Z(k) - complex({mr}, {mi})))",
+        }
+    p, mr = tg[0], names[2]
+    return {
+        "lemma.scatter_pointwise": f"forall(0, K, lambda k: ({p}[k] - {mr})**2 == (abs2(X(k)) - {mr})**2)",
+        "lemma.scatter_sum": f"Sum(0, K, lambda k: ({p}[k] - {mr})**2) == Sum(0, K, lambda k: (abs2(X(k)) - {mr})**2)",
+    }
+
+
+def make_np_kernel(fname, family, cross):
+    xs = ["x1", "x2"] if cross else ["x"]
+    ghosts = {"N": ("int", f"len({xs[0]})"), "K": ("int", "len(starts)")}
+    req = list(KERNEL_REQ)
+    if cross:
+        req.append("len(x2) == N")
+    if family == "poly":
+        ghosts["P1"] = ("int", "Q.shape[1]")
+        req += POLY_REQ
+    return Unit(
+        id=f"core.{fname}",
+        module=M,
+        func=fname,
+        props=["C01", "C07", "C08", "C11", "C14"],
+        ghosts=ghosts,
+        params=kernel_params(family, cross),
+        requires=req,
+        returns=("tuple", "real", "real", "real", "real", "real"),
+        ensures=dict(POST_CROSS if cross else POST_AUTO),
+        opts={"ghost_defs": kernel_ghost_defs(family, cross, xs), "lazy_loops": lambda mod, fname=fname, family=family, cross=cross: np_kernel_loops(mod, fname, family, cross), "lazy_lemmas": lambda mod, fname=fname, cross=cross: np_kernel_lemmas(mod, fname, cross), "sat_level": 0 if cross else 1},
+    )
+
+
+for family in ("win_only", "detrend0", "poly"):
+    for cross in (False, True):
+        _u = make_np_kernel(f"_stats_{family}_{'csd' if cross else 'auto'}_np", family, cross)
+        _u.runtime = dict(sample=kernel_sample(family, cross), call=kernel_call("speckit.core", _u.func), scale=kernel_scale, n_quick=12, n_thorough=120, n_search=60, skip_requires=("forall(0, K, lambda j: 0 <= starts[j] and starts[j] + L <= N)",))
+        if family == "poly":
+            # the vectorised projection (segs @ Q, alpha @ Q.T) needs three nested sum-extensionality
+            # steps that the VC preparation does not find within its budget
+            _u.opts["bounded_only"] = "nested matrix-product sums: inv_step of the chunk loop stays undecided in the solver budget"
+            _u.runtime["n_quick"] = 40
+            _u.runtime["n_thorough"] = 400
+        UNITS.append(_u)
+
+
+CUDA_HOSTS = [f"core_cuda._stats_{fam}_{m}_cuda" for fam in ("win_only", "detrend0", "poly") for m in ("auto", "csd")]
+_KINFO = {
+    "cudasim_units": CUDA_HOSTS,
+    "not_decided": ["rounding budget of the recurrence (float vs real): sampled by the run-time contract check with tolerance ~1e-4*L*(sum|w| max|x|)^2, not proved"],
+    "trusted": ["np.linalg.qr(V, 'reduced'): Q^T Q = I and range(Q) = range(V) (used by C08 only through the callers' requirement on Q)"],
+}
+PROPERTY_INFO = {"C01": dict(_KINFO), "C07": dict(_KINFO), "C08": dict(_KINFO), "C14": dict(_KINFO), "C11": {}}
